@@ -175,18 +175,36 @@ FRAMES["unary-expression"] = [
 ]
 TARGETS = list(FRAMES)
 
-# a few fixed texts: the _Static_assert message slot and regression anchors
+# a few fixed sentences (prefix, terminal symbols, suffix): constructs whose
+# shortest sentence is longer than the quick bound, and the message slot of
+# _Static_assert
+def _syms(s):
+    return tuple(s.split())
+
+
 FIXED = [
-    P + '_Static_assert(1, "s");',
-    P + '_Static_assert(1, "s" "s");',
-    P + 'void f(void) { _Static_assert(1, L"s"); }',
-    P + "int v[] = { [0].m[1] = 1, .n = { 1 } };",
+    (P, _syms("_Static_assert ( constant , string ) ;"), ""),
+    (P, _syms("_Static_assert ( constant , string string ) ;"), ""),
+    (F, _syms("_Static_assert ( constant , string ) ;"), " }"),
+    (P + "struct S { ", _syms("_Static_assert ( constant , string ) ;"), " };"),
+    (P + "struct S { int b; ", _syms("_Static_assert ( constant , string ) ;"), " };"),
+    (F + "for ( ", _syms("_Static_assert ( constant , string ) ;"), " ; ) ; }"),
+    (F, _syms("( typedef-name/T ) { constant } MEMOP identifier/member ;"), " }"),
+    (F, _syms("( typedef-name/T ) { constant } [ constant ] ;"), " }"),
+    (F, _syms("( typedef-name/T ) { constant } ( ) ;"), " }"),
+    (F, _syms("( typedef-name/T ) { constant } INCDEC ;"), " }"),
+    (F, _syms("sizeof ( typedef-name/T ) { constant } ;"), " }"),
+    (F, _syms("UNOP ( typedef-name/T ) { constant } ;"), " }"),
+    (P + "int v[] = { ", _syms("[ constant ] MEMOP identifier/member [ constant ] = constant , "
+                              "MEMOP identifier/member = { constant }"), " };"),
+    (P + "struct S { ", _syms("struct { TYPEKW1 identifier ; } ;"), " };"),
+    (P + "struct S { ", _syms("SU { TYPEKW1 identifier ; } ; TYPEKW1 identifier ;"), " };"),
 ]
 
 BOUNDS = {
     # tier: (N, N for expression/declarator, N of the substitution sweep,
     #        N of the substitution sweep for expression/declarator)
-    "quick": (5, 6, 4, 4),
+    "quick": (6, 7, 4, 5),
     "thorough": (7, 8, 5, 6),
 }
 WIDE = ("expression", "declarator")
@@ -611,13 +629,16 @@ def run(tier):
         sub_total += cnt
         accepted += ok
         rejected.extend(rej)
-    for text in FIXED:
-        out = outcome(text)
-        total += 1
-        if out[0] == "ok":
-            accepted += 1
-        else:
-            rejected.append((signature(text), text, "fixed", out[1]))
+    for pre, syms, suf in FIXED:
+        variants = [G.spell(syms)] + G.substitutions(syms, (suf.split() or [None])[0])
+        for sp in variants:
+            text = pre + " ".join(sp) + suf
+            out = outcome(text)
+            total += 1
+            if out[0] == "ok":
+                accepted += 1
+            else:
+                rejected.append((signature(text, len(pre), syms), text, "fixed", out[1]))
 
     # ---- gcc decides whether a rejected text is the model's fault
     utexts = sorted({r[1] for r in rejected})
